@@ -32,7 +32,9 @@ def graph_cases(r, tier, count, maxn, styles=("unit", "small", "two", "wide", "d
                 cases["x%d" % k] = (n, WE, 0, "exhaustive-n%d" % n); k += 1
     for i in range(count):
         n, E, tag = random_graph(r, maxn, big)
-        WE, scale = weights(r, E, r.choice(styles))
+        st = r.choice(styles + (("mixed",) if "wide" in styles and "dyadic" in styles else ()))
+        if st == "mixed" and (n > 12 or len(E) > 40): st = "wide"        # keep every sum below 2^53
+        WE, scale = weights(r, E, st)
         cases["r%d" % i] = (n, WE, scale, tag)
     return cases
 
